@@ -112,6 +112,17 @@ func c41Index(tips []consensus.ChainTip, r consensus.ChainTip) string {
 	return "foreign"
 }
 
+// g7PlainTip hides WindowBlockCounter: only the ChainTip methods are promoted, so a
+// comparison between two wrapped tips uses the legacy ratio metric.
+type g7PlainTip struct{ consensus.ChainTip }
+
+func g7Plain(t consensus.ChainTip) consensus.ChainTip {
+	if t == nil {
+		return nil
+	}
+	return g7PlainTip{t}
+}
+
 type c41Frag struct{ inWin, total uint64 }
 
 func (f *c41Frag) IntersectionSlot() uint64            { return 0 }
@@ -221,7 +232,11 @@ func runC41(op string) string {
 		return fmt.Sprintf("%d %d %d %d %d %d", c(t[0], t[1]), c(t[1], t[0]), c(t[1], t[2]), c(t[2], t[1]), c(t[0], t[2]), c(t[2], t[0]))
 	case "pref", "prefd":
 		// preferred candidate, its comparison against every candidate, and the same for
-		// the candidates in the order given by the trailing permutation (if any)
+		// the candidates in the order given by the trailing permutation (if any).
+		// PreferredWithDensity orders the whole set by ONE density metric (the window count only
+		// if every candidate can count): the comparisons reported here use that same metric —
+		// through the public pairwise CompareWithDensity, with the window capability hidden on
+		// both sides when some candidate lacks it.
 		c := cwd
 		var r consensus.ChainTip
 		if f[0] == "pref" {
@@ -229,6 +244,18 @@ func runC41(op string) string {
 			r = sel.Preferred(a.tips)
 		} else {
 			r = sel.PreferredWithDensity(a.tips, fork, a.tipBN)
+			mixed := false
+			for _, t := range a.tips {
+				if t == nil {
+					continue
+				}
+				if _, ok := t.(consensus.WindowBlockCounter); !ok {
+					mixed = true
+				}
+			}
+			if mixed {
+				c = func(x, y consensus.ChainTip) int { return cwd(g7Plain(x), g7Plain(y)) }
+			}
 		}
 		if len(a.tips) == 0 {
 			return "pref=" + c41Index(a.tips, r)
@@ -356,7 +383,77 @@ func c41Params(r *Rand) (k, window, forkSlot, forkBN, tipBN uint64) {
 	return
 }
 
+// c41Fixed: emitted on every run.
+//   - three or more tips of equal height of which exactly one has no VRF output, the others distinct
+//     outputs: indifference must stay transitive (a missing output is strictly worse, never "equal to everything");
+//   - deep forks over windowed tips with exactly equal window counts where the better candidate
+//     (longer, or equal length and lower VRF output) is not listed first: fall-through to length/VRF;
+//   - mixed sets for PreferredWithDensity in several orders.
+func c41Fixed(r *Rand, emit func(string)) {
+	perms3 := []string{"0 1 2", "0 2 1", "1 0 2", "1 2 0", "2 0 1", "2 1 0"}
+	vr := []string{"01", "02", "0003", "ff", hexs(r.Bytes(32)), hexs(r.Bytes(32))}
+	for i := 0; i < 6; i++ {
+		a, b := vr[r.Intn(len(vr))], vr[r.Intn(len(vr))]
+		tips := []string{"S:6:" + a + ":0:0", "S:6:" + b + ":0:0", "S:6:-:0:0"}
+		for _, pm := range perms3 {
+			idx := strings.Fields(pm)
+			t3 := []string{}
+			for _, x := range idx {
+				j, _ := strconv.Atoi(x)
+				t3 = append(t3, tips[j])
+			}
+			emit(fmt.Sprintf("tric 2 10 0 0 1 3 %s", strings.Join(t3, " ")))
+			emit(fmt.Sprintf("tri 2 10 0 0 9 3 %s", strings.Join(t3, " ")))
+			emit(fmt.Sprintf("pref 2 10 0 0 1 3 %s %s", strings.Join(tips, " "), pm))
+		}
+		emit(fmt.Sprintf("pref 2 10 0 0 1 4 %s S:6:-:0:0 3 2 1 0", strings.Join(tips, " ")))
+	}
+	// deep fork (k=2, fork block 0, tip 9), window 10 after slot 100: every tip has exactly two blocks in the window
+	w := func(bn int, vrf string, extra string) string {
+		return fmt.Sprintf("W:%d:%s:%s", bn, vrf, extra)
+	}
+	sets := [][]string{
+		{w(5, "01", "101,102,500"), w(7, "01", "103,110,99"), w(6, "01", "104,105")},          // longest in the middle
+		{w(6, "05", "101,102"), w(6, "02", "103,104,111"), w(6, "03", "105,106,100")},         // equal length: lowest VRF second
+		{w(6, "05", "101,102"), w(6, "-", "103,104"), w(6, "04", "105,106"), w(6, "0004", "107,110")}, // missing VRF loses, 04 == 0004
+		{w(4, "01", "101,102"), w(4, "01", "103,104"), w(9, "ff", "109,110")},                 // best last
+	}
+	for _, tips := range sets {
+		n := len(tips)
+		for k := 0; k < 4; k++ {
+			p := make([]int, n)
+			for j := range p {
+				p[j] = j
+			}
+			for j := n - 1; j > 0; j-- {
+				x := r.Intn(j + 1)
+				p[j], p[x] = p[x], p[j]
+			}
+			ps := ""
+			for _, x := range p {
+				ps += " " + strconv.Itoa(x)
+			}
+			emit(fmt.Sprintf("prefd 2 10 100 0 9 %d %s%s", n, strings.Join(tips, " "), ps))
+		}
+		for i := 0; i+1 < n; i++ {
+			emit(fmt.Sprintf("cwd 2 10 100 0 9 2 %s %s", tips[i], tips[i+1]))
+			emit(fmt.Sprintf("cwd 2 10 100 0 9 2 %s %s", tips[i+1], tips[i]))
+		}
+	}
+	// mixed candidate sets (two or more windowed tips and a simple one), deep fork, every order
+	mixed := []string{"W:7:01:1,2,3,1000", "W:7:01:1,2", "S:7:01:1:2"}
+	for _, pm := range perms3 {
+		emit(fmt.Sprintf("prefd 1 10 0 0 5 3 %s %s", strings.Join(mixed, " "), pm))
+	}
+	for i := 0; i < 12; i++ {
+		fs := uint64(r.Intn(3))
+		t := []string{c41Tip(r, 1, fs, 10, false), c41Tip(r, 1, fs, 10, false), c41Tip(r, 0, fs, 10, false), c41Tip(r, 2, fs, 10, true)}
+		emit(fmt.Sprintf("prefd 1 10 %d 0 5 4 %s %s", fs, strings.Join(t, " "), Pick(r, "0 1 2 3", "3 2 1 0", "2 0 3 1", "1 3 0 2")))
+	}
+}
+
 func genC41(r *Rand, n int, tier string, emit func(string)) {
+	c41Fixed(r, emit)
 	for i := 0; i < n; i++ {
 		k, w, fs, fb, tb := c41Params(r)
 		hdr := fmt.Sprintf("%d %d %d %d %d", k, w, fs, fb, tb)
